@@ -37,6 +37,11 @@ THEMES["cover_afe"] = ["<b>", "<i>", "<a>", "<nobr>", "<p>", "<div>", "<applet>"
                        "</object>", "x", "</a>", "</div>", "<b id=1>", "<b x=1 y=2>"]
 THEMES["frameset"] = ["<frameset>", "</frameset>", "</html>", "<noframes>", "</noframes>", "x", " ", "<frame>", "<html>", "<body>", "</body>",
                       "<!--c-->", "<head>", "&#32;", "&", "<"]
+# foreign elements that carry names the HTML rules test by name (html5lib compares names only in many places)
+THEMES["foreignnames"] = ["<svg>", "<math>", "<html>", "<body>", "<head>", "<table>", "<select>", "<frameset>", "<p>", "</p>", "<desc>", "<mi>",
+                          "<td>", "<tr>", "<caption>", "<tbody>", "<option>", "</table>", "</select>", "</body>", "</html>", "<li>", "<form>",
+                          "</form>", "<button>", "<title>", "</title>", "x", "</svg>", "<a>", "<nobr>", "<dd>", "<h1>", "</h1>", "<colgroup>",
+                          "</tr>", "</td>", "<object>", "</object>", "<ruby>", "<rt>"]
 PUMP_NAMES = """a b i nobr font p div span li dd dt ul ol dl h1 form button applet object marquee table caption colgroup tbody tr td th
 select option optgroup ruby rt rp rb rtc pre listing blockquote center address fieldset details summary menu nav section article
 aside header footer main figure dialog svg math mi mtext g desc foreignobject annotation-xml x-y em strong small code label
